@@ -46,6 +46,12 @@ def run(tier):
                       {"abs": False, "comps": ["d", big, "..", "..", "..", "n"]}]
         for bk in ("BK1", "BK2", "BK3", "BK4"):
             cases += [{"abs": False, "comps": [bk]}, {"abs": False, "comps": ["n", bk]}, {"abs": False, "comps": [bk, "n"]}]
+        # names that only LOOK like (or could be "cleaned" into) a climbing or absolute path: one component each, nothing to
+        # refuse, and nothing may leave the root - whatever the server does with them (an unusable name may end the session)
+        for z in ("Z1", "Z2", "Z3", "W1", "W2", "W3", "W4", "W5", "W6", "P1", "P2", "P3", "F1", "F2"):
+            cases += [{"abs": False, "comps": [z, "n"]}, {"abs": False, "comps": ["d", z, z, "n"]}, {"abs": False, "comps": [z]}]
+        cases += [{"abs": False, "comps": ["Z0", "PARENT", "n"]}, {"abs": False, "comps": ["Z0", "PARENT", "sibling", "inner.txt"]},
+                  {"abs": False, "comps": ["W0", "PARENT", "n"]}]
         log(f"[C11] PathGuard: {r.distinct} states, {len(cases)} paths to send")
         hashes = hr.compute_hashes(bins["vh_lib"], work)
         recs = hp.run_cases(copia, shim, os.path.join(work, "p"), hashes, cases)
